@@ -163,6 +163,11 @@ def check(case, stats):
     a, b = _snap(s1, cfg), _snap(s2, cfg)
     if a != b:
         raise Violation("reload-differs-from-fresh-load", case, f"differs in {snap.diff_keys(a, b)}")
+    # ... and so is everything the user is shown (tables, statistics, visualisation lists)
+    for name in (snap.TOY_INSPECT if cfg["kind"] == "toy" else snap.RV_INSPECT):
+        call = snap.toy_call if cfg["kind"] == "toy" else snap.rv_call
+        if call(s1, name) != call(s2, name):
+            raise Violation("reload-differs-from-fresh-load", case, f"{name}() after the final load differs from a fresh simulation")
     tags = {"kind:" + cfg["kind"]}
     if failed:
         tags.add("failed-load-before")
